@@ -117,8 +117,8 @@ def alpha_cfg(draw, kinds, assets, long_only):
         keys = [a for a in assets if draw(st.sampled_from([True, True, True, False]))]
         return {'kind': 'fixed', 'weights': {a: weight_value(draw, long_only) for a in keys}}
     if k == 'hist':
-        return {'kind': 'hist', 'lookback': draw(st.sampled_from([2, 5, 9, 20])), 'via_handler': draw(st.booleans()),
-                'tz': draw(st.sampled_from([None, None, 'Asia/Tokyo', 'America/New_York']))}
+        return {'kind': 'hist', 'lookback': draw(st.sampled_from([2, 5, 9, 20])), 'via_handler': draw(st.sampled_from([True, True, False])),
+                'tz': draw(st.sampled_from(['Asia/Tokyo', None, 'Asia/Tokyo', 'America/New_York']))}
     if k == 'cycle':
         n = draw(st.sampled_from([2, 2, 3]))
         return {'kind': 'cycle', 'vectors': [{a: weight_value(draw, long_only) for a in assets} for _ in range(n)]}
@@ -134,7 +134,7 @@ def alpha_cfg(draw, kinds, assets, long_only):
 
 
 @st.composite
-def full_config(draw, names, start, end, alpha_kinds=('fixed', 'single', 'topn', 'sma', 'invvol', 'cycle', 'hist'),
+def full_config(draw, names, start, end, alpha_kinds=('fixed', 'single', 'topn', 'sma', 'invvol', 'cycle', 'hist', 'hist'),
                 dynamic=True, burn=True, sched=None, entry_kinds=('before', 'before', 'start', 'start', 'on', 'on', 'after1m', 'after1m', 'mid', 'mid', 'after_end', 'none'),
                 burn_kinds=('on', 'after1m', 'mid', 'none', 'on', 'after1m', 'mid', 'none', 'before', 'after_end', 'none')):
     assets = ['EQ:' + n for n in names]
